@@ -1,6 +1,9 @@
 mod transformer;
 
 use serde::{Deserialize, Serialize};
+#[cfg(kani)]
+use crate::verif_shim::map::HashMap;
+#[cfg(not(kani))]
 use std::collections::HashMap;
 use std::sync::{Arc, RwLock};
 
